@@ -84,11 +84,24 @@ def canon(v):
     return ("obj", type(v).__name__, repr(v))
 
 
-def outcome(f, args, kwargs):
+def outcome(f, args, kwargs, raw=None):
     try:
-        return canon(f(*args, **kwargs))
+        r = f(*args, **kwargs)
+        if raw is not None:
+            raw.append(r)
+        return canon(r)
     except Exception as e:  # noqa
         return ("exc", common.err_class(e))
+
+
+def private_books(cached):
+    """(keys list, results dict) of dclab.cached.Cache if it still keeps them under the private
+    names the harness knows, else None (hits are then recognised by object identity)"""
+    k = getattr(cached.Cache, "_keys", None)
+    c = getattr(cached.Cache, "_cache", None)
+    if isinstance(k, list) and isinstance(c, dict):
+        return k, c
+    return None
 
 
 # --------------------------------------------------------------------------------------
@@ -181,6 +194,10 @@ def part_a(ctx):
             expect.append(None)
             hist = []
             recent = []
+            returned = []      # every object handed out since clear_cache (kept alive: ids stay unique)
+            if private_books(cached) is None and h == 0:
+                ctx.note("dclab.cached.Cache no longer has _keys/_cache: hits are recognised by the "
+                         "identity of the returned object, the bookkeeping-size comparison is skipped")
             for _ in range(ncalls):
                 fname = ctx.rng.choice(["kde_histogram", "kde_gauss", "downsample_grid",
                                         "probe_one", "probe_one", "probe_two"])
@@ -193,9 +210,16 @@ def part_a(ctx):
                 recent = (recent + [(fname, idx)])[-8:]
                 args, kwargs = pool[pk][idx]
                 cobj = funcs[fname]
-                keys_before = list(cached.Cache._keys)
-                got = outcome(cobj, args, kwargs)
-                miss = list(cached.Cache._keys) != keys_before
+                books = private_books(cached)
+                keys_before = list(books[0]) if books else None
+                raw = []
+                got = outcome(cobj, args, kwargs, raw)
+                books = private_books(cached)
+                if books and keys_before is not None:
+                    miss = list(books[0]) != keys_before
+                else:       # a hit hands out the object stored at the miss
+                    miss = not (raw and any(raw[0] is o for o in returned))
+                returned += raw
                 fresh = outcome(cobj.func, args, kwargs)
                 hist.append((fname, idx))
                 ctx.stat("calls")
@@ -209,19 +233,18 @@ def part_a(ctx):
                          "call": describe(args, kwargs)[:500],
                          "got": str(got)[:200], "fresh": str(fresh)[:200]})
                     break
-                if (len(cached.Cache._cache) != len(cached.Cache._keys)
-                        or len(cached.Cache._keys) > cap
-                        or set(cached.Cache._cache) != set(cached.Cache._keys)):
+                if books and (len(books[1]) != len(books[0]) or len(books[0]) > cap
+                              or set(books[1]) != set(books[0])):
                     ctx.violation(
                         "spec", f"Cache bookkeeping out of sync or over capacity: "
-                        f"{len(cached.Cache._cache)} cached results, {len(cached.Cache._keys)} keys, "
+                        f"{len(books[1])} cached results, {len(books[0])} keys, "
                         f"MAX_SIZE {cap}", {"part": "A", "cap": cap, "history_tail": hist[-20:]})
                     break
                 if fresh[0] == "exc":
                     ctx.stat("raising_calls")
                     continue       # nothing cached, nothing sent to the model
                 lines.append(call_line(cobj, args, kwargs))
-                expect.append(("miss" if miss else "hit", len(cached.Cache._keys)))
+                expect.append(("miss" if miss else "hit", len(books[0]) if books else None))
             histories.append((cap, hist))
             ctx.case(("A", cap, tuple(hist)), nontrivial=len(set(hist)) > cap,
                      sample={"part": "A", "cap": cap, "calls": len(hist),
